@@ -412,15 +412,15 @@ def rule_r7(chk):
 
 
 def run(chk):
-    rule_r1(chk)
-    rule_r7(chk)
-    rule_r2(chk)
-    rule_r3(chk)
-    c02.rule_r3(chk, rid="C05-R4")
-    rule_r5(chk)
-    rule_r6(chk)
+    chk.guard(rule_r1, chk)
+    chk.guard(rule_r7, chk)
+    chk.guard(rule_r2, chk)
+    chk.guard(rule_r3, chk)
+    chk.guard(c02.rule_r3, chk, rid="C05-R4")
+    chk.guard(rule_r5, chk)
+    chk.guard(rule_r6, chk)
     from . import c16
-    c16.rule_r3(chk, rid="C05-R8")
+    chk.guard(c16.rule_r3, chk, rid="C05-R8")
     chk.assumptions = [
         "that converged values satisfy the equations is the solver's numerics: NOT decided",
         "system matrices satisfy A xi_t + B xi_{t-1} + C = 0, F y + G xi + H = 0 (the sign convention of fords.systems.System)",
